@@ -349,7 +349,7 @@ func runC05(env *Env, tier string) {
 				slowID := inFlightID
 				old.App.RefuseToApp = func(c AppCall) bool {
 					if c.ID == slowID && !c.PossDup {
-						time.Sleep(1500*time.Millisecond + 173*time.Microsecond)
+						simsync.SleepHoldingLocks(1500*time.Millisecond + 173*time.Microsecond)
 					}
 					return false
 				}
